@@ -176,7 +176,7 @@ Fixpoint sweep (fuel : nat) (subs : list port) : list port * list Z :=
   match subs with
   | [] => ([], [])
   | s :: r =>
-      let '(s', got) := if p_closed s then (s, []) else match iter_pending fuel fuel s with (s1, Ok l) => (s1, l) | (s1, Raise _) => (s1, []) end in
+      let '(s', got) := if p_closed s then (s, []) else match iter_pending (S (S (length (p_queue s) + length (p_script s)))) fuel s with (s1, Ok l) => (s1, l) | (s1, Raise _) => (s1, []) end in
       let '(r', more) := sweep fuel r in (s' :: r', got ++ more)
   end.
 Record multi := { m_queue : list Z; m_subs : list port; m_sleeps : nat }.
